@@ -133,6 +133,14 @@ func ruleSleepBounded(r *core.Reporter) {
 					return
 				}
 				seen[v] = true
+				// capped by a constant: whatever the server says, the sleep is bounded
+				if c, isC := v.(*ssa.Call); isC && (ir.CallName(c.Common()) == "builtin.min" || ir.IsCallTo(c, "math.Min")) {
+					for _, a := range c.Call.Args {
+						if _, isConst := ir.Strip(a).(*ssa.Const); isConst {
+							return
+						}
+					}
+				}
 				tn := ir.TypeName(v.Type())
 				if tn == "net/http.Response" || tn == "net/http.Header" {
 					from = v
